@@ -3,3 +3,4 @@ pub mod lang;
 pub mod body;
 pub mod full;
 pub mod files;
+pub mod textmut;
